@@ -20,7 +20,7 @@ func init() { register(propC10{}) }
 func (propC10) ID() string    { return "C10" }
 func (propC10) Level() string { return "fault_enumeration" }
 func (propC10) Rule() string {
-	return "run indices below the grid size enumerate, exhaustively, 5 fixed trees (3 valid, 2 invalid) x {6 writer entry points x {no fault, error at Write 1/2, short write at Write 1/2, re-entrant writer}, Save x 5 target situations (existing target short and long) x {none, EACCES, ENOSPC with 0/50/100% landed, EIO}}; the remaining indices sample trees, histories (1..3 faulted ops) and plans by seed, under seeded map order; distinct = distinct (entry point, tree validity, fault kind, fired?, outcome class); non-trivial = a fault fired or the tree was invalid"
+	return "run indices below the grid size enumerate, exhaustively, 5 fixed trees (3 valid, 2 invalid) x {6 writer entry points x {no fault, error at Write 1/2, short write at Write 1/2, re-entrant writer}, Save x 7 target situations (fresh, existing short/long, directory, missing parent, parent is a file, dangling symlink, symlink to a file) x {none, EACCES, ENOSPC with 0/50/100% landed, EIO}}; the remaining indices sample trees, histories (1..3 faulted ops) and plans by seed, under seeded map order; distinct = distinct (entry point, tree validity, fault kind, fired?, outcome class); non-trivial = a fault fired or the tree was invalid"
 }
 func (propC10) Runs(tier string) int {
 	if tier == "thorough" {
@@ -30,8 +30,8 @@ func (propC10) Runs(tier string) int {
 }
 
 var c10EntryPoints = []string{"render", "render_frag", "render_frag_nofile", "render_group", "render_group_nofile", "render_body"}
-var c10WriterPlans = []*WriterPlan{nil, {FailAt: 1, Kind: "err"}, {FailAt: 2, Kind: "err"}, {FailAt: 1, Kind: "short"}, {FailAt: 2, Kind: "short"}, {Reenter: true}}
-var c10Targets = []string{"fresh", "existing", "isdir", "noparent", "parentfile"}
+var c10WriterPlans = []*WriterPlan{nil, {FailAt: 1, Kind: "err"}, {FailAt: 2, Kind: "err"}, {FailAt: 1, Kind: "short"}, {FailAt: 2, Kind: "short"}, {FailAt: 1, Kind: "errfull"}, {Reenter: true}}
+var c10Targets = []string{"fresh", "existing", "isdir", "noparent", "parentfile", "symlink-dangling", "symlink-file"}
 var c10Injects = []FSPlan{{}, {Part: 25}, {Inject: "eacces", At: 1}, {Inject: "enospc", At: 1, Part: 0}, {Inject: "enospc", At: 1, Part: 50}, {Inject: "enospc", At: 1, Part: 100}, {Inject: "eio", At: 1, Part: 30}}
 
 func c10Trees() []*Recipe {
@@ -149,7 +149,7 @@ func (propC10) GenAt(index int, seed uint64, tier string) *Case {
 		if big {
 			k = r.Range(1, 5)
 		}
-		return &WriterPlan{FailAt: k, Kind: r.Pick([]string{"err", "short"})}
+		return &WriterPlan{FailAt: k, Kind: r.Pick([]string{"err", "short", "errfull"})}
 	}
 	for i := r.Range(1, 4); i > 0; i-- {
 		switch x := r.Intn(10); {
@@ -216,6 +216,22 @@ func targetRows(rows []string, target string) []string {
 		name := row[:strings.Index(row, " ")]
 		if name == target || strings.HasPrefix(name, target+"/") || strings.HasPrefix(target, name+"/") {
 			out = append(out, row)
+		}
+	}
+	return out
+}
+
+// otherRows: snapshot rows that do not belong to the target (nor lie on the way to it, nor
+// are the destination of the symlink scenarios).
+func otherRows(rows []string, target string) []string {
+	mine := map[string]bool{}
+	for _, r := range targetRows(rows, target) {
+		mine[r] = true
+	}
+	var out []string
+	for _, r := range rows {
+		if !mine[r] && !strings.HasPrefix(r, "elsewhere.go ") {
+			out = append(out, r)
 		}
 	}
 	return out
@@ -340,6 +356,8 @@ func (propC10) Check(c *Case) (*Violation, *RunInfo) {
 					fail("C10-A4-error-swallowed", "rendering this File fails (%s) but Save reported success", trunc(ref.Err, 120))
 				} else if strings.Join(before, "\n") != strings.Join(after, "\n") {
 					fail("C10-A1-target-touched", "rendering failed but the target changed: before %v, after %v (fs calls: %v)", before, after, a.FSLog)
+				} else if strings.Join(a.FSBefore, "\n") != strings.Join(a.FSAfter, "\n") {
+					fail("C10-A1-something-written", "rendering failed, so nothing may be written, but the directory changed: before %v, after %v (fs calls: %v)", a.FSBefore, a.FSAfter, a.FSLog)
 				}
 			case fired:
 				ri.count("A2_save_under_fs_fault", 1)
@@ -349,6 +367,13 @@ func (propC10) Check(c *Case) (*Violation, *RunInfo) {
 				ri.count("A3_save_success", 1)
 				if !a.OK {
 					fail("C10-A4-spurious-error", "no fault fired and rendering succeeds, but Save failed: %s", trunc(a.Err, 200))
+				}
+			}
+			if viol == nil && ref.OK {
+				// whatever the outcome, Save's business is the target: other entries of the directory
+				// (temporary files of an implementation that writes and renames) must not stay behind
+				if o1, o2 := otherRows(a.FSBefore, a.Target), otherRows(a.FSAfter, a.Target); strings.Join(o1, "\n") != strings.Join(o2, "\n") {
+					fail("C10-leftover-files", "after Save (returned error: %v) the directory holds entries besides the target that were not there before: before %v, after %v", !a.OK, o1, o2)
 				}
 			}
 			if viol == nil && a.OK {
@@ -372,8 +397,10 @@ func (propC10) Check(c *Case) (*Violation, *RunInfo) {
 			}
 		case a.Fired:
 			ri.count("A2_render_under_writer_fault", 1)
-			if a.OK && !bytes.Equal(a.Out, ref.Out) {
-				fail("C10-A2-error-swallowed", "the writer failed at Write call %d, the call returned nil and the writer did not receive the rendered output", op.W.FailAt)
+			// an io.Writer's error cannot be recovered from elsewhere: it must come back, even
+			// when the writer took all the bytes before failing
+			if a.OK {
+				fail("C10-A2-error-swallowed", "the writer returned an error at Write call %d (kind %s) but the call returned nil", op.W.FailAt, op.W.Kind)
 			}
 		default:
 			ri.count("A3_render_success", 1)
